@@ -156,17 +156,19 @@ theorem runTx_goat (d : D) (o : Op) :
   · exact Or.inl rfl
   · exact Or.inl rfl
   · split
-    · rename_i hk
-      split
-      · rename_i d' hd
-        obtain ⟨p, _, _, _, h3, h4, _, _, h7, _⟩ := C09.head_becomes_payload d d' o hd
-        right
-        refine ⟨by simpa using hk, ?_⟩
-        show Child _ _
-        rw [h7]; exact ⟨h3, h4⟩
-      · exact Or.inl rfl
-      · exact Or.inl rfl
-    · split <;> exact Or.inl rfl
+    · exact Or.inl rfl
+    · split
+      · rename_i hk
+        split
+        · rename_i d' hd
+          obtain ⟨p, _, _, _, h3, h4, _, _, h7, _⟩ := C09.head_becomes_payload d d' o hd
+          right
+          refine ⟨by simpa using hk, ?_⟩
+          show Child _ _
+          rw [h7]; exact ⟨h3, h4⟩
+        · exact Or.inl rfl
+        · exact Or.inl rfl
+      · split <;> exact Or.inl rfl
 
 private theorem ite_pair_fst' {α β : Type} (c : Bool) (r : α × β) (x : β) :
     (if c = true then (r.1, x) else r).1 = r.1 := by split <;> rfl
@@ -317,16 +319,18 @@ theorem ethblock_op_moves_to_child (d : D) (o : Op) (hk : o.kind = "tx.ethblock"
   · exact Or.inl rfl
   · exact Or.inl rfl
   · split
+    · exact Or.inl rfl
     · split
-      · rename_i d' hd
-        obtain ⟨p, hp, _, _, h3, h4, _, h6, h7, h8⟩ := C09.head_becomes_payload d d' o hd
-        refine Or.inr ⟨p, hp, h3, h4, h6, ?_⟩
-        show d'.goat = _
-        have : d'.goat = ⟨d'.goat.head, d'.goat.beaconRoot⟩ := rfl
-        rw [this, h7, h8]
-      · exact Or.inl rfl
-      · exact Or.inl rfl
-    · split <;> exact Or.inl rfl
+      · split
+        · rename_i d' hd
+          obtain ⟨p, hp, _, _, h3, h4, _, h6, h7, h8⟩ := C09.head_becomes_payload d d' o hd
+          refine Or.inr ⟨p, hp, h3, h4, h6, ?_⟩
+          show d'.goat = _
+          have : d'.goat = ⟨d'.goat.head, d'.goat.beaconRoot⟩ := rfl
+          rw [this, h7, h8]
+        · exact Or.inl rfl
+        · exact Or.inl rfl
+      · split <;> exact Or.inl rfl
 
 /-- **One step, the beacon root**: an operation that is not a state-loading one leaves the beacon root,
     or it is a successful execution-block message (the root becomes its `headerhash` and the head moves
@@ -567,13 +571,14 @@ theorem newEthBlock_eq_P (d : D) (o : Op) : newEthBlock d o = newEthBlockP d o (
 
 /-- a step with the execution-block message, through the twin -/
 theorem step_eth_twin (d : D) (o : Op) (pl : Option App.Payload) (lr : Locking.Reqs)
-    (hk : o.kind = "tx.ethblock") (ha : ante d o = .ok ()) (hp : payloadOf o = pl) (hl : lockReqs o = lr) :
+    (hk : o.kind = "tx.ethblock") (ha : ante d o = .ok ()) (hg : (o.str "oog" == "1") = false)
+    (hp : payloadOf o = pl) (hl : lockReqs o = lr) :
     (step d o).1 = (match newEthBlockP d o pl lr with | .ok d' => d' | _ => d) := by
   rw [step_ethblock_eq_runTx d o hk]
   subst hp hl
   unfold runTx
   rw [ha]
-  simp only [hk, BEq.rfl, if_true]
+  simp only [hg, hk, BEq.rfl, if_true, Bool.false_eq_true, if_false]
   rw [newEthBlock_eq_P]
   cases newEthBlockP d o (payloadOf o) (lockReqs o) <;> rfl
 
@@ -645,9 +650,9 @@ def e5 : D := match newEthBlockP e4 oEth2 (some (pay oEth2 2)) (lr0 oEth2) with 
 def e6 : D := (step e5 oEndErr).1
 
 theorem step_e1 : (step e1 oEth1).1 = e2 :=
-  step_eth_twin e1 oEth1 _ _ rfl (by decide +kernel) payloadOf_oEth1 (lockReqs_gas0 oEth1 (by decide +kernel))
+  step_eth_twin e1 oEth1 _ _ rfl (by decide +kernel) (by decide +kernel) payloadOf_oEth1 (lockReqs_gas0 oEth1 (by decide +kernel))
 theorem step_e4 : (step e4 oEth2).1 = e5 :=
-  step_eth_twin e4 oEth2 _ _ rfl (by decide +kernel) payloadOf_oEth2 (lockReqs_gas0 oEth2 (by decide +kernel))
+  step_eth_twin e4 oEth2 _ _ rfl (by decide +kernel) (by decide +kernel) payloadOf_oEth2 (lockReqs_gas0 oEth2 (by decide +kernel))
 
 theorem run_hist_3 : run d0 [oStart, oEth1, oEndOk] = e3 := by
   show (step (step e1 oEth1).1 oEndOk).1 = e3
